@@ -26,7 +26,7 @@ structure NetArgs where
   /-- bzip2 oracle table: compressed ↦ decompressed (none = decoder error) -/
   bz : List (Bytes × Option Bytes)
 
-/-- trailing tokens: `<script> [f=0101] [bz=<in>:<out|!>]*` -/
+/-- trailing tokens: `<script> [f=0101] [bz=<in>:<out|!>]* [td=<r>,<w>,<c>]` -/
 def parseNetArgs (toks : List String) : Option NetArgs :=
   match toks with
   | [] => none
@@ -45,6 +45,9 @@ def parseNetArgs (toks : List String) : Option NetArgs :=
               | some ib, some ob => some { a with bz := (ib, ob) :: a.bz }
               | _, _ => none
             | _ => none
+          -- `td=<read>,<write>,<connect>`: the timeout durations the harness constructs its settings with; the model has
+          -- no clock, accepted durations do not change what a query does
+          else if t.startsWith "td=" then some a
           else none) init
 
 def showEv : Ev → String
